@@ -53,7 +53,90 @@ fn dec(tb: &mut TB, a: T, off: u64, cond: T, out: &mut Vec<(T, T, u64)>) {
             let c2 = tb.and2(cond, nc);
             dec(tb, y, off, c2, out);
         }
+        K::Concat(..) | K::Extract(..) | K::ZExt(..) => {
+            // bytes written under different guards: split on the guards so
+            // that each alternative collapses to a recognisable pointer
+            let mut conds = Vec::new();
+            collect_ite_conds(tb, a, &mut conds, 0);
+            if conds.is_empty() || conds.len() > 4 {
+                out.push((cond, a, off));
+                return;
+            }
+            for mask in 0..(1u32 << conds.len()) {
+                let mut c = cond;
+                let mut pos = Vec::new();
+                let mut neg = Vec::new();
+                for (i, k) in conds.iter().enumerate() {
+                    if mask & (1 << i) != 0 {
+                        pos.push(*k);
+                        c = tb.and2(c, *k);
+                    } else {
+                        neg.push(*k);
+                        let nk = tb.not(*k);
+                        c = tb.and2(c, nk);
+                    }
+                }
+                if tb.as_bool(c) == Some(false) {
+                    continue;
+                }
+                let t = subst_ites(tb, a, &pos, &neg);
+                match tb.k(t).clone() {
+                    K::Add(..) | K::Ite(..) => dec(tb, t, off, c, out),
+                    _ => out.push((c, t, off)),
+                }
+            }
+        }
         _ => out.push((cond, a, off)),
+    }
+}
+
+fn collect_ite_conds(tb: &TB, t: T, out: &mut Vec<T>, depth: u32) {
+    if depth > 12 || out.len() > 4 {
+        return;
+    }
+    match tb.k(t).clone() {
+        K::Ite(c, x, y) => {
+            if !out.contains(&c) {
+                out.push(c);
+            }
+            collect_ite_conds(tb, x, out, depth + 1);
+            collect_ite_conds(tb, y, out, depth + 1);
+        }
+        K::Concat(a, b) => {
+            collect_ite_conds(tb, a, out, depth + 1);
+            collect_ite_conds(tb, b, out, depth + 1);
+        }
+        K::Extract(_, _, a) | K::ZExt(_, a) => collect_ite_conds(tb, a, out, depth + 1),
+        _ => {}
+    }
+}
+
+fn subst_ites(tb: &mut TB, t: T, pos: &[T], neg: &[T]) -> T {
+    match tb.k(t).clone() {
+        K::Ite(c, x, y) => {
+            if pos.contains(&c) {
+                subst_ites(tb, x, pos, neg)
+            } else if neg.contains(&c) {
+                subst_ites(tb, y, pos, neg)
+            } else {
+                t
+            }
+        }
+        K::Concat(a, b) => {
+            let a2 = subst_ites(tb, a, pos, neg);
+            let b2 = subst_ites(tb, b, pos, neg);
+            tb.concat(a2, b2)
+        }
+        K::Extract(h, l, a) => {
+            let a2 = subst_ites(tb, a, pos, neg);
+            tb.extract(h, l, a2)
+        }
+        K::ZExt(_, a) => {
+            let w = tb.width(t);
+            let a2 = subst_ites(tb, a, pos, neg);
+            tb.zext_to(a2, w)
+        }
+        _ => t,
     }
 }
 
